@@ -4,6 +4,7 @@ import FrappyProofs.Lemmas.Timed
 import FrappyProofs.Lemmas.Shutdown
 import FrappyProofs.Lemmas.Conn
 import FrappyProofs.Lemmas.ReconnectInv
+import FrappyProofs.Lemmas.ReconnectQuiet
 import FrappyModel.Generated.C11
 /-
 C11 — property theorems (nothing but property theorems and their non-vacuity examples).
@@ -517,18 +518,30 @@ def traceMarkerEaten : List Cmd := [
   .to 3 .d5,
   .to 0 .done ]
 
-/-- … the user's `disconnect()` hangs: it waits for a tx thread that sits on an empty queue of a healthy connection, all
-other threads have finished except the rx thread, which polls; 300 further steps of the threads change nothing. -/
+/-- … the user's `disconnect()` (thread 3) hangs: it waits in `txthread.join()` for a tx thread that sits on an empty queue
+of a healthy connection, all other threads have finished except the rx thread, which polls — and whatever the threads do
+from there on (any number of their own steps in any order, heartbeats included, without a fault of the environment), the
+`disconnect()` is still waiting. -/
 theorem marker_eaten_hangs :
-    ∃ s : St, Reachable cfgSwallow s ∧ txJoinHangs s = true ∧ txJoinHangs (runGreedy cfgSwallow 300 s) = true := by
-  have hc : (exec cfgSwallow {} traceMarkerEaten).map (fun s => txJoinHangs s && txJoinHangs (runGreedy cfgSwallow 300 s))
-      = some true := by decide +kernel
+    ∃ s : St, Reachable cfgSwallow s ∧ txJoinHangs s = true
+      ∧ (∃ U, s.th[3]? = some U ∧ U.kind = .userDisc ∧ U.pc = .d5)
+      ∧ ∀ (acts : List Act) (s' : St), (∀ a ∈ acts, internal a) → run cfgSwallow s acts = some s' →
+          ∃ U', s'.th[3]? = some U' ∧ U'.pc = .d5 := by
+  have hc : (exec cfgSwallow {} traceMarkerEaten).map (fun s => txJoinHangs s && quietB s
+      && (s.th[3]?.map (fun U => U.kind == .userDisc && U.pc == .d5)) == some true) = some true := by decide +kernel
   cases he : exec cfgSwallow {} traceMarkerEaten with
   | none => rw [he] at hc; cases hc
   | some s =>
     rw [he] at hc
-    simp only [Option.map_some, Option.some.injEq, Bool.and_eq_true] at hc
-    exact ⟨s, exec_reachable Reachable.init he, hc.1, hc.2⟩
+    simp only [Option.map_some, Option.some.injEq, Bool.and_eq_true, beq_iff_eq] at hc
+    obtain ⟨⟨h1, h2⟩, h3⟩ := hc
+    cases hU : s.th[3]? with
+    | none => rw [hU] at h3; simp at h3
+    | some U =>
+      rw [hU] at h3
+      simp only [Option.map_some, Option.some.injEq, Bool.and_eq_true, beq_iff_eq] at h3
+      refine ⟨s, exec_reachable Reachable.init he, h1, ⟨U, hU, h3.1, h3.2⟩, fun acts s' hi hr => ?_⟩
+      exact (quiet_forever (quiet_of_quietB h2) hi hr).2 3 U hU h3.2
 
 /-- the repaired client, same schedule: the drain puts the marker back, the new tx thread ends, everything terminates -/
 example : (exec { activate := false } {} traceMarkerEaten).map
